@@ -423,6 +423,10 @@ def o_delay(v: View, stats=None):
         ds = {repr(float(d)) for _, d in seen if isinstance(d, (int, float))}
         if len(ds) > 1:
             yield "delay-observers-disagree", f"attempt {s.i}: {seen}"
+        pl_ = (v.sc.get("place") or {}).get("sleeper", "call")
+        if (pl_ in ("policy", "both") or (pl_ == "call" and "sleeper" not in (v.env.get("drop_call_kw") or ()))) and any(e_[0] == "dsleep" for e_ in s.sleeps):
+            # "that same delay is what the sleeper receives": the sleeper the caller configured, not the library's default one
+            yield "configured-sleeper-bypassed", f"attempt {s.i}: a sleeper is configured ({pl_}) but the delay went to the default blocking/async sleep: {[e_[:3] for e_ in s.sleeps]}"
         if s.retries:
             prev_applied = s.retries[-1][3]
         elif seen:
